@@ -49,6 +49,11 @@ def impl(case):
             t = PoseTrajectory3D(poses_se3=[p.copy() for p in poses], timestamps=np.array(stamps)) if stamps \
                 else PosePath3D(poses_se3=[p.copy() for p in poses])
         before = [p.copy() for p in t.poses_se3]
+        pre = case.get("pre_read")      # which views were read (and cached) before the projection
+        if pre in ("quat", "both"):
+            t.orientations_quat_wxyz
+        if pre in ("pos", "both"):
+            t.positions_xyz
         t.project(Plane(case["plane"]))
         out = {"poses": [H(p) for p in t.poses_se3], "pos": [H(v) for v in t.positions_xyz],
                "quat": [H(q) for q in t.orientations_quat_wxyz], "n": int(t.num_poses),
@@ -115,6 +120,9 @@ def judge(case, val, out, f3=None):
             return _sv("pose %d is not a valid rigid-body pose" % k)
         if not np.allclose(U(out["pos"][k], 3), a[:3, 3], atol=0) :
             return _sv("positions view of pose %d differs from its matrix after projection" % k)
+        from harness.props.c08 import qmat_py
+        if not np.allclose(qmat_py(U(out["quat"][k], 4)), R, atol=1e-9):
+            return _sv("quaternion view of pose %d does not describe the projected orientation" % k)
     if case.get("planar"):
         for k, (b, a) in enumerate(zip(before, after)):
             if not np.allclose(a, b, atol=1e-9):
@@ -172,7 +180,7 @@ def gen(ctx):
             p[:3, 3] = rng.normal(size=3) * 10.0 ** rng.integers(-2, 6)
             poses.append(p)
         c = {"kind": "general", "plane": ["xy", "xz", "yz"][i % 3], "poses": [H(p) for p in poses],
-             "from_quat": bool(i % 2), "plane2": ["xy", "xz", "yz"][(i // 3) % 3]}
+             "from_quat": bool(i % 2), "plane2": ["xy", "xz", "yz"][(i // 3) % 3], "pre_read": [None, "quat", "pos", "both"][(i // 2) % 4]}
         if i % 2:
             c["stamps"] = [hexf(x) for x in 1.5e9 + np.cumsum(rng.uniform(0.1, 1.0, n))]
         cases.append(c)
